@@ -24,6 +24,9 @@ static void take (Image *im, long n)
 {	im->bytes = malloc (dev.len + 1) ; memcpy (im->bytes, dev.data, dev.len) ; im->len = dev.len ; im->n = n ;
 }
 
+static int app_entry = -1 ;	/* >= 0: the parts are appended to an existing file (APP_PRE frames and, with meta, a string chunk behind them) re-opened SFM_RDWR,
+				** through typed writer number app_entry (type = entry / 2, frames variant = entry & 1) */
+#define APP_PRE 7
 static const unsigned char *raw_bytes ; static int raw_bw ;	/* when set, the parts are written with sf_write_raw from these encoded bytes (raw_bw bytes per frame) */
 
 /* writes the four parts; mode 0: no updates, 1: SFC_UPDATE_HEADER_NOW after each part, 2: SFC_SET_UPDATE_HEADER_AUTO */
@@ -36,11 +39,31 @@ static int write_history (const Fmt *f, int ch, int mode, int meta, const long *
 	{	INLIB (sf_set_string (sf, SF_STR_TITLE, "crash point title")) ; INLIB (sf_set_string (sf, SF_STR_ARTIST, "x")) ;
 		INLIB (sf_set_string (sf, SF_STR_COMMENT, "a comment of odd length.")) ;
 		}
+	if (app_entry >= 0)
+	{	sf_count_t r ;
+		if (vl_write (sf, T_SHORT, 1, data, APP_PRE) != APP_PRE) { INLIB (sf_close (sf)) ; return -2 ; }
+		if (meta) INLIB (sf_set_string (sf, SF_STR_COPYRIGHT, "a string behind the audio")) ;
+		INLIB (sf_close (sf)) ;
+		md_rewind (&dev) ; rt_info_read (&info, f, ch, fmt_default_rate (f)) ; sf = md_open (&dev, SFM_RDWR, &info) ;
+		if (! sf) return -5 ;
+		INLIB (r = sf_seek (sf, 0, SEEK_END | SFM_WRITE)) ; if (r != APP_PRE) { INLIB (sf_close (sf)) ; return -5 ; }
+		n = APP_PRE ;
+		}
 	if (mode == 2) INLIB (sf_command (sf, SFC_SET_UPDATE_HEADER_AUTO, NULL, SF_TRUE)) ;
 	for (int p = 0 ; p < 4 ; p++)
 	{	sf_count_t w ;
 		if (mode == 2 && with_mid) { dev.on_write = on_write ; mid_on = 1 ; }
 		if (raw_bytes) { INLIB (w = sf_write_raw (sf, raw_bytes + n * raw_bw, parts [p] * raw_bw)) ; w = w >= 0 ? w / raw_bw : w ; }
+		else if (app_entry >= 0)
+		{	int type = app_entry / 2, fv = app_entry & 1 ; long items = parts [p] * ch ; void *tb = malloc (items * 8 + 8) ;
+			for (long i = 0 ; i < items ; i++)
+			{	short v = data [n * ch + i] ;
+				if (type == T_SHORT) ((short *) tb) [i] = v ; else if (type == T_INT) ((int *) tb) [i] = (int) ((uint32_t) (int) v << 16) ;
+				else if (type == T_FLOAT) ((float *) tb) [i] = (float) v / 32768.0f ; else ((double *) tb) [i] = (double) v / 32768.0 ;
+				}
+			w = vl_write (sf, type, fv, tb, fv ? parts [p] : items) ; if (! fv && w >= 0) w /= ch ;
+			free (tb) ;
+			}
 		else w = vl_write (sf, T_SHORT, 1, data + n * ch, parts [p]) ;
 		mid_on = 0 ;
 		if (w != parts [p]) { INLIB (sf_close (sf)) ; return -2 ; }
@@ -85,6 +108,7 @@ static void c11_case (const Fmt *f, int ch, int mode, int meta, int seq)
 	else if (B > 1) { parts [0] = B + 3 ; parts [1] = 1 ; parts [2] = 2 * B - 1 ; parts [3] = 3 ; }
 	else { parts [0] = 5 ; parts [1] = 1 ; parts [2] = 4 ; parts [3] = 3 ; }
 	for (int p = 0 ; p < 4 ; p++) total += parts [p] ;
+	app_entry = seq >= 3 ? seq - 3 : -1 ; if (app_entry >= 0) total += APP_PRE ;
 	data = malloc (total * ch * 2) ;
 	for (long i = 0 ; i < total * ch ; i++) { long fr = i / ch ; data [i] = (short) ((((fr * 37 + (i % ch) * 11) % 255) - 127) * 192 + (fr & 63)) ; }
 	memset (images, 0, sizeof (images)) ; nmid = 0 ;
@@ -102,7 +126,8 @@ static void c11_case (const Fmt *f, int ch, int mode, int meta, int seq)
 
 	rc = write_history (f, ch, mode, meta, parts, data, images, with_mid) ;
 	raw_bytes = NULL ;
-	if (rc == -1) { vl_note ("write-open refused") ; free (data) ; vl_end (0, 1) ; return ; }
+	if (rc == -1) { vl_note ("write-open refused") ; free (data) ; app_entry = -1 ; vl_end (0, 1) ; return ; }
+	if (rc == -5) { vl_note ("the file cannot be re-opened SFM_RDWR with the write pointer at its end") ; free (data) ; app_entry = -1 ; vl_end (0, 8) ; return ; }
 	if (rc == -3) { vl_note ("write-mode seek not supported by this codec") ; free (data) ; for (int p = 0 ; p < 4 ; p++) free (images [p].bytes) ; vl_end (0, 3) ; return ; }
 	if (rc == -4) { vl_violation (rt_sig ("%s|seek-end-after-update", rs), "SEEK_END after the header update did not return the frames written so far") ; goto out ; }
 	if (rc != 0) { vl_violation (rt_sig ("%s|write-failed", rs), "history with header updates failed (rc=%d)", rc) ; goto out ; }
@@ -121,7 +146,7 @@ static void c11_case (const Fmt *f, int ch, int mode, int meta, int seq)
 			vl_violation (rt_sig ("%s|updates-change-audio", rs), "finished file has %ld frames with updates, %ld without%s", Ffin, Fplain, Fplain == Ffin ? " (content differs)" : "") ;
 		}
 	/* every crash point */
-	{	long n = 0 ;
+	{	long n = app_entry >= 0 ? APP_PRE : 0 ;
 		for (int p = 0 ; p < 4 ; p++)
 		{	short *got = NULL ; SF_INFO si ; long F, lo ; char where [32] ;
 			n += parts [p] ; snprintf (where, sizeof (where), "cp%d", p + 1) ;
@@ -159,7 +184,7 @@ out :
 	for (int p = 0 ; p < 4 ; p++) free (images [p].bytes) ;
 	for (int k = 0 ; k < nmid ; k++) free (mid [k].bytes) ;
 	nmid = 0 ;
-	free (data) ; free (fin) ; free (plain) ; free (raw_buf) ;
+	free (data) ; free (fin) ; free (plain) ; free (raw_buf) ; app_entry = -1 ;
 	vl_count_states (4) ;
 	vl_end (1, oh) ;
 }
@@ -184,6 +209,11 @@ void harness_run (void)
 					{	vl_root_count (f->name) ; c11_case (f, ch, mode, meta, 1) ; }
 					if (mode <= 2 && f->gran && sub != SF_FORMAT_DPCM_8 && sub != SF_FORMAT_DPCM_16 && vl_case ("C11 fmt=%s ch=%d mode=%s meta=%d seq=raw-writes", f->name, ch, mode == 1 ? "update-now" : "auto", meta))
 					{	vl_root_count (f->name) ; c11_case (f, ch, mode, meta, 2) ; }
+					/* appending to an existing file re-opened SFM_RDWR (with meta: a string chunk lies behind its audio), through each of the eight typed writers */
+					if (mode <= 2 && f->gran && sub != SF_FORMAT_DPCM_8 && sub != SF_FORMAT_DPCM_16 && ch == 2)
+						for (int entry = 0 ; entry < 8 ; entry++)
+							if (vl_case ("C11 fmt=%s ch=%d mode=%s meta=%d seq=append-rdwr entry=%s%s", f->name, ch, mode == 1 ? "update-now" : "auto", meta, type_names [entry / 2], (entry & 1) ? "f" : ""))
+							{	vl_root_count (f->name) ; c11_case (f, ch, mode, meta, 3 + entry) ; }
 					}
 			}
 		}
